@@ -1,4 +1,4 @@
-import GixModel.Lemmas.C39Pipeline
+import GixModel.Lemmas.C39Long
 /-
 C39 — Pathspecs select the same paths as git.  PROPERTY THEOREMS ONLY.
 
@@ -105,6 +105,136 @@ theorem select_eq_git_strings (env : C39.Env) (hpre : WmPrefix env.wm) (hsl : Wm
     gixSelect env elems names = gitSelect env elems names :=
   select_pipeline env hpre hsl elems names (fun e he => parse_eq_git_partial e (hp e he)) hn
 
+/-! ### round 2: `attr:` bodies, escaped commas, path parts that need normalisation -/
+
+/-- **attr_element_eq_git**: one space-separated element of an `attr:` body — `name`, `-name`, `!name`,
+`name=value` with `\`-escapes in the value — is read alike by gitoxide (unescape the value, refuse
+`!name=value`/`-name=value`, `gix_attributes::parse::Iter`) and by git (`parse_pathspec_attr_match`):
+same name, same match mode, same unescaped value, or both refuse. For EVERY byte string. -/
+theorem attr_element_eq_git (tok : Bytes) : gixTok tok = parseAttrMatch tok := gixTok_eq_git tok
+
+/-- **attr_body_eq_git**: gitoxide's `parse_attributes` accepts exactly the `attr:` bodies git accepts
+and yields the same requirements in the same order — for every body without TAB and CR (there
+gitoxide splits and git does not: `BodyOk`). -/
+theorem attr_body_eq_git (body : Bytes) (hb : BodyOk body) :
+    parseAttributes body = if body.isEmpty then none
+      else allSome (((splitOnSpace [] body).filter fun t => !t.isEmpty).map parseAttrMatch) :=
+  parseAttributes_eq body hb
+
+/-- a checker for `EscWord` (no `,`, no `)`, backslashes only as `\,`) -/
+def escWordB : Bytes → Bool
+  | [] => true
+  | 92 :: 44 :: w => escWordB w
+  | b :: w => b != 44 && b != 41 && b != 92 && escWordB w
+
+theorem escWordB_sound : ∀ (n : Nat) (w : Bytes), w.length ≤ n → escWordB w = true → EscWord w := by
+  intro n
+  induction n with
+  | zero =>
+    intro w hw _
+    have : w = [] := by cases w with | nil => rfl | cons _ _ => simp at hw
+    subst this; exact EscWord.nil
+  | succ n ih =>
+    intro w hw h
+    rw [escWordB.eq_def] at h
+    split at h
+    · exact EscWord.nil
+    · rename_i w'
+      exact EscWord.comma w' (ih w' (by simp at hw ⊢; omega) h)
+    · rename_i b w' _
+      simp only [Bool.and_eq_true, bne_iff_ne, ne_eq] at h
+      exact EscWord.plain b w' h.1.1.1 h.1.1.2 h.1.2 (ih w' (by simp at hw ⊢; omega) h.2)
+
+/-- The pathspec strings on which the two parsers are NOW proved to agree. Against `InDomain`:
+* the path part may need normalisation (`./`, `//`, `..`, trailing slashes, leaving the worktree) —
+  everything but the lone `/` (git: outside the repository; gitoxide: matches everything); under `top`
+  (`:/`, `:(top)`) git keeps the path part verbatim where gitoxide normalises it, so there it has to
+  be clean (`PathPartOk`);
+* the long form may contain `attr:` elements (`LongWord`): bodies without TAB/CR that are not only
+  spaces, with `\,` for a comma in a value; a second `attr:` is refused by both.
+Still outside: short magic followed by `(` and the internal `prefix:` keyword (known findings), and
+backslashes in the long form other than `\,`. -/
+inductive InDomain2 : Bytes → Prop
+  | colon : InDomain2 [58]
+  | plain (e : Bytes) (hne : e ≠ []) (hh : e.head? ≠ some 58) (hc : e ≠ [47]) : InDomain2 e
+  | short (rest : Bytes) (hne : rest ≠ []) (hp : rest.head? ≠ some 40)
+      (hdom : ∀ t e r, parseShort rest false false = some (t, e, r) → r.head? ≠ some 40 ∧ PathPartOk t r) :
+      InDomain2 (58 :: rest)
+  | long (ws : List Bytes) (hne : ws ≠ []) (hws : ∀ w ∈ ws, LongWord w) (path : Bytes)
+      (hc : ∀ p, gixFold (some PSpec.default) ws = some p → PathPartOk p.top path) :
+      InDomain2 (58 :: 40 :: (joinComma ws ++ 41 :: path))
+
+theorem pathPartOk_of_clean (t : Bool) (path : Bytes) (h : cleanPath path = true) : PathPartOk t path := by
+  unfold PathPartOk
+  cases t
+  · simp only [Bool.false_eq_true, if_false]
+    intro he; subst he; revert h; decide
+  · simpa using h
+
+/-- the round-1 domain is part of the new one -/
+theorem inDomain_sub (e : Bytes) (h : InDomain e) : InDomain2 e := by
+  cases h with
+  | colon => exact InDomain2.colon
+  | plain _ hne hh hc => exact InDomain2.plain e hne hh (by intro he; subst he; revert hc; decide)
+  | short rest hne hp hdom =>
+    exact InDomain2.short rest hne hp fun t e r h => ⟨(hdom t e r h).1, pathPartOk_of_clean t r (hdom t e r h).2⟩
+  | long ws hne hws path hc =>
+    exact InDomain2.long ws hne (fun w hw => Or.inl (hws w hw)) path fun p _ => pathPartOk_of_clean p.top path hc
+
+/-- **parse_eq_git** (round 2; `parse_eq_git_partial` is the special case `inDomain_sub`): on
+`InDomain2`, git's `init_pathspec_item` builds exactly the item of the spec gitoxide parses and
+normalises — same magic bits, same attribute requirements, same match string — or both refuse. -/
+theorem parse_eq_git (e : Bytes) (h : InDomain2 e) : ParseAgrees e := by
+  unfold ParseAgrees
+  cases h with
+  | colon => rfl
+  | plain _ hne hh hc => exact parse_plain2 e hne hh hc
+  | short rest hne hp hdom => exact parse_short2 rest hne hp hdom
+  | long ws hne hws path hc => exact parse_long2 ws hne hws path hc
+
+/-- **select_eq_git_strings** over the round-2 domain: for pathspecs in `InDomain2`, every attribute
+lookup, every matcher with the two `wildmatch` laws and every list of index paths, gitoxide selects
+exactly the paths `git ls-files -- <specs>` lists, and refuses the list exactly when git does. -/
+theorem select_eq_git_strings2 (env : C39.Env) (hpre : WmPrefix env.wm) (hsl : WmSlash env.wm) (elems names : List Bytes)
+    (hp : ∀ e ∈ elems, InDomain2 e) (hn : ∀ n ∈ names, NameOk n) :
+    gixSelect env elems names = gitSelect env elems names :=
+  select_pipeline env hpre hsl elems names (fun e he => parse_eq_git e (hp e he)) hn
+
+-- non-vacuity: `a//b/../x/` is normalised to `a/x` (must be a directory) by both
+example : InDomain2 [97, 47, 47, 98, 47, 46, 46, 47, 120, 47] := InDomain2.plain _ (by simp) (by simp) (by simp)
+
+example : ((parseSpec [97, 47, 47, 98, 47, 46, 46, 47, 120, 47]).bind normalize).map (fun s => (s.path, s.mustBeDir))
+    = some ([97, 47, 120], true) := by decide
+
+example : (initItem [97, 47, 47, 98, 47, 46, 46, 47, 120, 47]).map (·.match_) = some [97, 47, 120, 47] := by decide
+
+-- `../x` leaves the worktree: both refuse
+example : InDomain2 [46, 46, 47, 120] ∧ initItem [46, 46, 47, 120] = none := ⟨InDomain2.plain _ (by simp) (by simp) (by simp), by decide⟩
+
+-- `:(attr:text -diff !x eol=lf\,crlf,icase)src/`
+example : InDomain2 (58 :: 40 :: (joinComma [[97, 116, 116, 114, 58, 116, 101, 120, 116, 32, 45, 100, 105, 102, 102, 32, 33, 120, 32,
+      101, 111, 108, 61, 108, 102, 92, 44, 99, 114, 108, 102], [105, 99, 97, 115, 101]] ++ 41 :: [115, 114, 99, 47])) := by
+  refine InDomain2.long _ (by simp) ?_ _ (fun p _ => pathPartOk_of_clean p.top _ (by decide))
+  intro w hw
+  simp only [List.mem_cons, List.mem_nil_iff, or_false] at hw
+  rcases hw with rfl | rfl
+  · refine Or.inr ⟨[116, 101, 120, 116, 32, 45, 100, 105, 102, 102, 32, 33, 120, 32, 101, 111, 108, 61, 108, 102, 92, 44, 99, 114, 108, 102],
+      rfl, ?_, ⟨116, by simp, by decide⟩, escWordB_sound _ _ (Nat.le_refl _) (by decide)⟩
+    intro b hb
+    simp only [List.mem_cons, List.mem_nil_iff, or_false] at hb
+    rcases hb with rfl | rfl | rfl | rfl | rfl | rfl | rfl | rfl | rfl | rfl | rfl | rfl | rfl | rfl | rfl | rfl | rfl | rfl | rfl |
+      rfl | rfl | rfl | rfl | rfl | rfl | rfl <;> decide
+  · exact Or.inl (by decide)
+
+example : (parseSpec [58, 40, 97, 116, 116, 114, 58, 116, 101, 120, 116, 32, 45, 100, 105, 102, 102, 32, 33, 120, 32,
+      101, 111, 108, 61, 108, 102, 92, 44, 99, 114, 108, 102, 44, 105, 99, 97, 115, 101, 41, 115, 114, 99, 47]).map (fun s => (s.attrs, s.icase))
+    = some ([⟨[116, 101, 120, 116], St.set⟩, ⟨[100, 105, 102, 102], St.unset⟩, ⟨[120], St.unspecified⟩,
+        ⟨[101, 111, 108], St.value [108, 102, 44, 99, 114, 108, 102]⟩], true) := by decide
+
+-- a second `attr:` element is refused by both
+example : initItem [58, 40, 97, 116, 116, 114, 58, 97, 44, 97, 116, 116, 114, 58, 98, 41, 120] = none
+    ∧ parseSpec [58, 40, 97, 116, 116, 114, 58, 97, 44, 97, 116, 116, 114, 58, 98, 41, 120] = none := by decide
+
 /-- the same for any pathspecs on which the parsers agree -/
 theorem select_eq_git_of_parse (env : C39.Env) (hpre : WmPrefix env.wm) (hsl : WmSlash env.wm) (elems names : List Bytes)
     (hp : ∀ e ∈ elems, ParseAgrees e) (hn : ∀ n ∈ names, NameOk n) :
@@ -115,6 +245,40 @@ theorem select_eq_git_of_parse (env : C39.Env) (hpre : WmPrefix env.wm) (hsl : W
 def C39_full : Prop :=
   ∀ (env : C39.Env) (elems names : List Bytes), WmPrefix env.wm → WmSlash env.wm →
     (∀ e ∈ elems, ∀ b ∈ e, b ≠ 0) → (∀ n ∈ names, NameOk n) → gixSelect env elems names = gitSelect env elems names
+
+/-- `C39_parse_full` as stated in round 1 (every string without NUL) is FALSE: `:!(icase)x` — short
+magic followed by `(`, a known finding — is accepted by both with different results (git: exclude,
+match string `(icase)x`; gitoxide: exclude, icase, path `x`). The provable statement is `parse_eq_git`
+over `InDomain2`, which names what is excluded. -/
+theorem C39_parse_full_false : ¬ C39_parse_full := by
+  intro h
+  have := congrArg (Option.map (·.icase)) (h [58, 33, 40, 105, 99, 97, 115, 101, 41, 120] (by decide))
+  revert this
+  decide
+
+/-- likewise `C39_full` is false: `:(prefix:0)a` (the internal `prefix:` keyword, a known finding) is
+refused by gitoxide and accepted by git -/
+theorem C39_full_false : ¬ C39_full := by
+  intro h
+  have := h ⟨fun _ _ _ _ => false, fun _ _ => none⟩ [[58, 40, 112, 114, 101, 102, 105, 120, 58, 48, 41, 97]] [[97]]
+    (by intro text value pn k _ h; exact absurd h (by simp))
+    (by intro text value pn ic h; exact absurd h (by simp))
+    (by decide) (by intro n hn; simp at hn; subst hn; exact ⟨by simp, by simp⟩)
+  revert this
+  decide
+
+/-- The full statements with the excluded classes as an explicit predicate: both follow from
+`parse_eq_git` / `select_eq_git_strings2` (PROVED below). -/
+def C39_parse_guarded : Prop := ∀ e : Bytes, InDomain2 e → ParseAgrees e
+
+def C39_guarded : Prop :=
+  ∀ (env : C39.Env) (elems names : List Bytes), WmPrefix env.wm → WmSlash env.wm →
+    (∀ e ∈ elems, InDomain2 e) → (∀ n ∈ names, NameOk n) → gixSelect env elems names = gitSelect env elems names
+
+theorem C39_parse_guarded_holds : C39_parse_guarded := parse_eq_git
+
+theorem C39_guarded_holds : C39_guarded :=
+  fun env elems names hpre hsl hp hn => select_eq_git_strings2 env hpre hsl elems names hp hn
 
 -- non-vacuity of the end-to-end statement: `a/` and `:!a/b` over a/x, a/b/c, d — both sides select a/x
 example :
